@@ -208,6 +208,12 @@ func c15Keys(c *work.Ctx) {
 					c15One(c, t, shape, n+"+"+k2, doc, pad.name, "duplicate")
 				}
 			}
+			// the first-win option (the library's own extension): which field a key selects is the same, the
+			// FIRST key that selects a field provides its value; the model is built from encoding/json's
+			// single-key answers for the same type
+			if len(shape) >= 2 {
+				c15FirstWin(c, t, shape, pad.name)
+			}
 			// encoding side: member names and order
 			v := reflect.New(t).Elem()
 			for i := 0; i < t.NumField(); i++ {
@@ -228,6 +234,84 @@ func c15Keys(c *work.Ctx) {
 			c.Sample("struct with field names " + strings.Join(shape, ","))
 		}
 		c.EndCase()
+	}
+}
+
+// c15FirstWin decodes documents with repeated and case-varied keys under DecodeFieldPriorityFirstWin.
+func c15FirstWin(c *work.Ctx, t reflect.Type, shape []string, pad string) {
+	n1, n2 := shape[0], shape[1]
+	variants := func(n string) []string { return []string{n, strings.ToUpper(n), strings.ToLower(n)} }
+	fieldOf := func(k string) int { // index of the field encoding/json gives the key to, -1 if none
+		got, err := c15Decode(t, []byte(`{"`+c15Escape(k, 99)+`":5}`), true, false)
+		if err != nil || got == "" {
+			return -1
+		}
+		var idx int
+		fmt.Sscanf(got, "%d=", &idx)
+		return idx
+	}
+	for _, k1 := range variants(n1) {
+		for _, k2 := range variants(n2) {
+			keys := []string{"zz", k1, k2, k1, k2, n1, n2}
+			var sb strings.Builder
+			sb.WriteString("{")
+			want := map[int]int{}
+			for i, k := range keys {
+				if i > 0 {
+					sb.WriteString(",")
+				}
+				fmt.Fprintf(&sb, `"%s":%d`, c15Escape(k, 99), i+1)
+				if f := fieldOf(k); f >= 0 {
+					if _, seen := want[f]; !seen {
+						want[f] = i + 1
+					}
+				}
+			}
+			sb.WriteString("}")
+			doc := sb.String()
+			var ws strings.Builder
+			for i := 0; i < t.NumField(); i++ {
+				if v, ok := want[i]; ok {
+					fmt.Fprintf(&ws, "%d=%d ", i, v)
+				}
+			}
+			for mode := 0; mode < 2; mode++ {
+				p := reflect.New(t)
+				for i := 0; i < t.NumField(); i++ {
+					if p.Elem().Field(i).Kind() == reflect.Int {
+						p.Elem().Field(i).SetInt(int64(100 + i))
+					}
+				}
+				var err error
+				pn, msg := util.Safe(func() {
+					if mode == 0 {
+						err = json.UnmarshalWithOption([]byte(doc), p.Interface(), json.DecodeFieldPriorityFirstWin())
+					} else {
+						err = json.NewDecoder(strings.NewReader(doc)).DecodeWithOption(p.Interface(), json.DecodeFieldPriorityFirstWin())
+					}
+				})
+				c.Count("first_win_decodes", 1)
+				var gs strings.Builder
+				for i := 0; i < t.NumField(); i++ {
+					f := p.Elem().Field(i)
+					if f.Kind() == reflect.Int && f.Int() != int64(100+i) {
+						fmt.Fprintf(&gs, "%d=%d ", i, f.Int())
+					}
+				}
+				m := []string{"Unmarshal", "Decoder"}[mode]
+				switch {
+				case pn:
+					c.Violation(fmt.Sprintf("first-win : %s : panic : %s", pad, util.ErrClass(msg)), doc, msg)
+				case err != nil || gs.String() != ws.String():
+					rel := "names unrelated"
+					if strings.EqualFold(n1, n2) {
+						rel = "names differ only in case"
+					}
+					c.Violation(fmt.Sprintf("first-win : %s : %s : %s : not the first key of every field", pad, m, rel), fmt.Sprintf("fields %q <- %s", shape, doc),
+						fmt.Sprintf("%s with the first-win option of %s into a struct with fields %q (%s): sets [%s] err=%v; the first key of every field gives [%s]", m, doc, shape, pad, gs.String(), err, ws.String()))
+				}
+			}
+		}
 	}
 }
 
